@@ -32,6 +32,10 @@ UNSUPPORTED = re.compile(r"unsupported|expected integer literal|not a known cons
                          r"cannot infer|unknown function|not supported|type mismatch")
 
 
+# diagnostics that claim something about the *value* of the expression (as opposed to "this form is not handled")
+VALUE_DIAG = re.compile(r"division by zero|modulo by zero|overflow|out of range|not representable|const_assert|must be positive|negative")
+
+
 def unq(s):
     return s.replace("\\n", "\n").replace('\\"', '"').replace("\\\\", "\\")
 
@@ -113,7 +117,7 @@ def run(ck):
             how = "WGSL makes this constant expression a shader-creation error; naga accepted it and substituted the value shown"
         elif head == "VALID-REJECTED":
             msg = cs[cs.rfind(' "'):]
-            if knob == "modfull" and UNSUPPORTED.search(msg):
+            if knob == "modfull" and (UNSUPPORTED.search(msg) or not VALUE_DIAG.search(msg)):
                 unsupported += 1      # the module-scope evaluator refuses the form: nothing was evaluated
                 continue
             cls = norm(msg)[:120]
